@@ -432,6 +432,18 @@ def _run_u(case):
     ok, got = lib(fails, "update.integrate_x", lambda: p.integrate("x"))
     if ok:
         check(fails, "update:integrate_x", got, mu, (1 + np.abs(mu)) * kap)
+    # update(idx, d) replaces exactly the addressed components of the object it is called on: a slice (copy) of a
+    # density is an object of its own, updating it must leave the source untouched
+    mu0, Sig0 = np.asarray(case["m"]["mu"], float), np.asarray(case["m"]["Sigma"], float)
+    ok, src = lib(fails, "construct_src", libx.make_measure, case["kind"], case["m"])
+    if ok:
+        ok, q = lib(fails, "src.slice", lambda: src.slice(jnp.arange(R)))
+        if ok:
+            ok, _ = lib(fails, "slice.update", lambda: q.update(jnp.array(uidx), d))
+            ok, got = lib(fails, "src.evaluate_ln", lambda: src.evaluate_ln(J(x)))
+            if ok:
+                w0, s0 = oracle.mvn_ln(x, mu0, Sig0)
+                check(fails, "update:source_of_slice_changed", got, w0, s0 * np.maximum(1.0, oracle.cond(Sig0))[:, None])
     return fails
 
 
